@@ -221,18 +221,28 @@ def main(tier):
     violations = []
     # a value difference that also exists at the default opset (23) is not opset-dependent: it is
     # C01's defect and is reported there; C11 keeps differences that appear only at some opsets
-    at_default = {common.base_pid(r["job"].split("|", 1)[1]) for r in results if r.get("status") == "violation" and r.get("kind") != "schema" and r.get("opset") == 23}
+    at_default = {common.finding_pid(r["job"].split("|", 1)[1]) for r in results if r.get("status") == "violation" and r.get("kind") != "schema" and r.get("opset") == 23}
     not_opset_specific = set()
+    # a schema/type problem present at EVERY tested opset is not an opset matter (C03 reports it)
+    sch = {}
     for r in results:
-        if r.get("status") == "violation" and r.get("kind") != "schema" and common.base_pid(r["job"].split("|", 1)[1]) in at_default:
-            not_opset_specific.add(common.base_pid(r["job"].split("|", 1)[1]))
+        if r.get("status") == "violation" and r.get("kind") == "schema":
+            sch.setdefault((common.base_pid(r["job"].split("|", 1)[1]), tuple(r.get("ops") or [])), set()).add(r.get("opset"))
+    everywhere = {k for k, v in sch.items() if v >= set(opsets(tier))}
+    for r in results:
+        if r.get("status") == "violation" and r.get("kind") == "schema" and (common.base_pid(r["job"].split("|", 1)[1]), tuple(r.get("ops") or [])) in everywhere:
+            not_opset_specific.add(common.base_pid(r["job"].split("|", 1)[1]) + " " + ",".join(r.get("ops") or []))
+            r["status"] = "not_opset_specific"
+    for r in results:
+        if r.get("status") == "violation" and r.get("kind") != "schema" and common.finding_pid(r["job"].split("|", 1)[1]) in at_default:
+            not_opset_specific.add(common.finding_pid(r["job"].split("|", 1)[1]))
             continue
         if r.get("status") == "violation":
             pid = r["job"].split("|", 1)[1]
             if r.get("kind") == "schema":
                 key = f"schema|opset={r['opset']}|ops={','.join(r.get('ops') or [])}"
             else:
-                key = f"value|opset={r['opset']}|{common.base_pid(pid)}"
+                key = f"value|{common.finding_pid(pid)}"
             w = r.get("witness") or {}
             violations.append({"key": key, "what": f"{pid}: {w.get('why') or w.get('what')}", "payload": {"job": r["job"], "witness": w}})
     cov = c01.evidence_coverage([r for r in results if r.get("stats")], tier)
